@@ -739,4 +739,25 @@ def decodeWith (typed : Bool) (now : Int) (b : Bytes) : Outcome :=
 
 end generic
 
+/-! ## the WAL record of an accepted columnar write (`ArrowBuffer.Write`)
+
+What is written ahead of buffering is part of what "ends up stored": after a crash the rows are
+rebuilt from it. A write logs either the original client bytes (zero-copy `AppendRawWithMeta`) or a
+row transpose of the typed batch (`typedBatchToWALRecords`, which ignores validity: NULLs come back
+as 0 / ""). Which one depends on the function `Write` hands the record to and on whether the raw
+payload travels with it — facts regenerated from the current source. -/
+
+inductive WalRec where
+  | raw (payload : Bytes)      -- envelope + the request body, byte for byte
+  | rows                       -- row records rebuilt from the typed batch (lossy for NULLs)
+  deriving DecidableEq, Repr
+
+/-- `Write` on the *TypedColumnarRecord of a typed hit on body `b` -/
+def walTyped (b : Bytes) : WalRec :=
+  if typedWriteLogsRaw && !b.isEmpty then .raw b else .rows
+
+/-- `Write` on the *ColumnarRecord the generic path produces for a top-level single-map body `b` -/
+def walGeneric (b : Bytes) : WalRec :=
+  if genericWriteLogsRaw && !b.isEmpty then .raw b else .rows
+
 end Arc.C02
